@@ -161,6 +161,15 @@ def wl_nldf_grad(p):
     out["vrho"] = vrho
     out["gg"] = gg
     out["excsum"] = np.asarray(exc)
+    # the next geometry step / SCF cycle on the same generator (work space that lives on the
+    # Python objects survives), possibly under another thread-count setting
+    phase()
+    rho2 = _rho_data(nprng, nrho, ngrids_ato)
+    out["feat.2"] = gen.get_features(rho2, spin=0, map_grids=False, grad_mode=True)
+    vrho2, gg2, exc2 = gen.get_potential(nprng.normal(size=feat.shape), spin=0, map_grids=False, grad_mode=True)
+    out["vrho.2"] = vrho2
+    out["gg.2"] = gg2
+    out["excsum.2"] = np.asarray(exc2)
     return out
 
 
